@@ -198,37 +198,43 @@ Definition touches (x : xcall) (l : locus) (len : Z) : bool :=
   (lo_in x l =? 0) || (lo_in x l + n_in x =? len) ||
   (has_sig x && ((lo_out x l =? 0) || (lo_out x l + n_out x =? len))).
 
+Definition has_insig (x : xcall) : bool := negb (x_nin x =? 0)%nat.
+
+(* bases of the in window under the call's alphabet; every signal track on the out window;
+   every in_signal track on the in window *)
 Definition expected_row (x : xcall) (c : chrom) (l : locus) : row :=
-  (map base_code (slice_enum 0 (c_seq c) (lo_in x l) (n_in x)),
-   if has_sig x then map (fun t => slice_enum 0 t (lo_out x l) (n_out x)) (c_sig c) else []).
+  (map (base_code (x_alpha x)) (slice_enum 0 (c_seq c) (lo_in x l) (n_in x)),
+   if has_sig x then map (fun t => slice_enum 0 t (lo_out x l) (n_out x)) (c_sig c) else [],
+   if has_insig x then map (fun t => slice_enum 0 t (lo_in x l) (n_in x)) (c_insig c) else []).
 
 Definition zl_eqb : list Z -> list Z -> bool := list_eqb Z.eqb.
 Definition row_eqb (r1 r2 : row) : bool :=
-  zl_eqb (fst r1) (fst r2) && list_eqb zl_eqb (snd r1) (snd r2).
+  zl_eqb (fst (fst r1)) (fst (fst r2)) && list_eqb zl_eqb (snd (fst r1)) (snd (fst r2)) &&
+  list_eqb zl_eqb (snd r1) (snd r2).
 
 Inductive cls := COmit | CKeep | CFree.
 
 (* may / must the locus be omitted (classify is only applied to loci on the requested
-   chromosomes, see spec_loci).  The text only LICENSES omission ("omitted only when ..."):
-   a locus failing the count filters (on the exact out-window of track target_idx) or with an
-   expanded window that touches a chromosome end may be kept or left out (CFree); a window
-   that crosses a chromosome end has no bases to return and must be left out; every other
-   locus must be kept. *)
+   chromosomes, see spec_loci).  A window that crosses a chromosome end has no bases to return:
+   the locus must be left out.  A locus whose counts (sum of the exact out-window of track
+   target_idx) are outside [min_counts, max_counts] fails the count filters: left out.  A locus
+   whose expanded window merely touches a chromosome end may be kept or left out (the text
+   allows its omission, the rows it would yield exist).  Every other locus must be kept. *)
 Definition classify (x : xcall) (l : locus) : cls :=
   match find_chrom (x_gen x) (l_chr l) with
   | None => COmit
   | Some c =>
       let len := Z.of_nat (length (c_seq c)) in
       if crosses x l len then COmit else
-      let total := sumZ (nth (x_tgt x) (snd (expected_row x c l)) []) in
-      if has_sig x && (below (x_min x) total || above (x_max x) total) then CFree
+      let total := sumZ (nth (x_tgt x) (snd (fst (expected_row x c l))) []) in
+      if has_sig x && (below (x_min x) total || above (x_max x) total) then COmit
       else if touches x l len then CFree else CKeep
   end.
 
 Definition row_of (x : xcall) (l : locus) : row :=
   match find_chrom (x_gen x) (l_chr l) with
   | Some c => expected_row x c l
-  | None => ([], [])
+  | None => ([], [], [])
   end.
 
 Definition dec (cap : option nat) : option nat :=
@@ -259,13 +265,21 @@ Fixpoint matchr (x : xcall) (ls : list locus) (cap : option nat) (rows : list ro
 
 Definition is_some {A} (o : option A) : bool := match o with Some _ => true | None => false end.
 
-(* inputs inside the property's quantifier *)
+Definition tracks_ok (n : nat) (len : nat) (ts : list (list Z)) : bool :=
+  (length ts =? n)%nat && forallb (fun t => (length t =? len)%nat) ts.
+
+(* inputs inside the property's quantifier.  With in_signals but without signals the code
+   still lets out_window take part in the edge filter although no out window is returned;
+   the text does not say what the "expanded window" is then, so such calls are in scope only
+   when the out window lies inside the in window. *)
 Definition in_scope (x : xcall) : bool :=
   (1 <=? x_win x) && (0 <=? x_jit x) &&
   ((x_nsig x =? 0)%nat ||
    ((1 <=? x_wout x) && (x_tgt x <? x_nsig x)%nat &&
-    forallb (fun c => (length (c_sig c) =? x_nsig x)%nat &&
-                      forallb (fun t => (length t =? length (c_seq c))%nat) (c_sig c)) (x_gen x))) &&
+    forallb (fun c => tracks_ok (x_nsig x) (length (c_seq c)) (c_sig c)) (x_gen x))) &&
+  ((x_nin x =? 0)%nat ||
+   (forallb (fun c => tracks_ok (x_nin x) (length (c_seq c)) (c_insig c)) (x_gen x) &&
+    (negb (x_nsig x =? 0)%nat || (x_wout x / 2 <=? x_win x / 2)))) &&
   match x_nloci x with Some n => 0 <=? n | None => true end &&
   forallb (forallb (fun l => negb (on_chroms (x_chroms x) l) ||
                              is_some (find_chrom (x_gen x) (l_chr l)))) (x_sets x).
@@ -274,15 +288,25 @@ Definition in_scope (x : xcall) : bool :=
 (*  calls, outcomes, the spec                                                             *)
 (* ====================================================================================== *)
 
-Inductive call := CMeme (g : mfile) | CLoci (x : xcall).
+Inductive call := CMeme (g : mfile) (n_motifs : option Z) | CLoci (x : xcall).
 Inductive value := VMeme (ms : list motif) | VLoci (rows : list row).
 Definition outcome := res value.
 
-Definition spec_meme (g : mfile) (o : outcome) : bool :=
+(* n_motifs = None: every motif.  n_motifs = k >= 1: the first k motifs (all of them when the
+   file has fewer).  k <= 0 is outside the text. *)
+Definition spec_meme (g : mfile) (n : option Z) (o : outcome) : bool :=
   if wf_file g then
-    match o with
-    | Ok (VMeme ms) => all2 motif_ok (f_blocks g) ms
-    | _ => false
+    match n with
+    | Some k => if 1 <=? k then
+                  match o with
+                  | Ok (VMeme ms) => all2 motif_ok (firstn (Z.to_nat k) (f_blocks g)) ms
+                  | _ => false
+                  end
+                else true
+    | None => match o with
+              | Ok (VMeme ms) => all2 motif_ok (f_blocks g) ms
+              | _ => false
+              end
     end
   else true.
 
@@ -303,19 +327,19 @@ Definition spec_loci (x : xcall) (o : outcome) : bool :=
 
 Definition spec_ok (c : call) (o : outcome) : bool :=
   match c with
-  | CMeme g => spec_meme g o
+  | CMeme g n => spec_meme g n o
   | CLoci x => spec_loci x o
   end.
 
 Definition model (c : call) : outcome :=
   match c with
-  | CMeme g => do ms <- read_meme (render_file g) ;; Ok (VMeme ms)
+  | CMeme g n => do ms <- read_meme n (render_file g) ;; Ok (VMeme ms)
   | CLoci x => do rows <- extract_loci x ;; Ok (VLoci rows)
   end.
 
 Definition model_v0 (c : call) : outcome :=
   match c with
-  | CMeme g => do ms <- read_meme_v0 (render_file g) ;; Ok (VMeme ms)
+  | CMeme g n => do ms <- read_meme_v0 n (render_file g) ;; Ok (VMeme ms)
   | CLoci x => model c
   end.
 
@@ -343,13 +367,22 @@ Definition file_hash (s : bytes) : Z :=
   fold_left (fun h b => (h * 257 + b + 1) mod 2305843009213693951) s (Z.of_nat (length s)).
 
 Definition file_ok (c : call) (h : Z) : bool :=
-  match c with CMeme g => file_hash (render_file g) =? h | CLoci _ => true end.
+  match c with CMeme g _ => file_hash (render_file g) =? h | CLoci _ => true end.
 
 Definition check_case (c : case) : nat :=
   let '(cl, o1, o2, h) := c in
   let m := model cl in
   verdict (outcome_close o1 m && outcome_close o2 m && file_ok cl h)
           (spec_ok cl o1 && spec_ok cl o2 && outcome_eqb o1 o2).
+
+(* a sequence of calls made one after the other in one process on the same files / the same
+   in-memory objects (one parameter changed from call to call), plus: were the caller's objects
+   (DataFrames, arrays, lists; the tensors returned by earlier calls) left untouched? *)
+Definition mcase := (list case * bool)%type.
+
+Definition check_mcase (m : mcase) : nat :=
+  let v := fold_right Nat.max 0%nat (map check_case (fst m)) in
+  if snd m then v else 2%nat.
 
 (* ---- literal helpers for the harness (harness/c16.py prints these names) *)
 (* an exact dyadic rational m / 2^e: what a double is *)
